@@ -31,6 +31,12 @@ Second round (after seeded changes C11-4..6):
     models AFTER model() / model_contrib() / model_full_contrib() (transmission with both path
     methods, emission); binding C evaluates the long-lived model before reading the structure and
     compares with a fresh, un-evaluated one.
+Fifth round (after seeded change C11-14): the ELEMENT TYPE / container in which the profile inputs are handed
+over (MC_Atmosphere!ElementTypes, exported per vector as `etypes`; WorkArrays = "inherit_element_type" is refuted by
+TLC on StructureIndependentOfElementType).  Binding A builds every vector a second time with its temperatures in one
+of the exported presentations (int64 / int32 / float32 / float64 arrays, lists of ints) through TemperatureArray with one
+entry per layer, and hands Planet.calculate_scale_properties arrays of those element types (every input array whose
+numbers the type represents exactly); the expected values are the same exact vectors (the unit maps have whole T0).
 Third round (after seeded change C11-9): the TYPE of the components a model is assembled from, and the
 arrays the model shares with them.
   * MC_Atmosphere: the temperature component reads the model's own layer-pressure array whenever its
@@ -69,6 +75,11 @@ from ..fx_components import (TOLD_KINDS, TEMP_KINDS, GAS_TYPES, told_temperature
 
 PPB = 100            # relative tolerance of the TLC-side comparison, parts per 1e9 (1e-7)
 REL = 1e-9           # Python-side comparison against TLC's exact rationals (binding A)
+# float32 presentation: the NUMBERS are the same (whole kelvins below 2**24), but products of a float32 entry with a
+# Python scalar may legitimately be rounded to 24 bits (NumPy's scalar promotion): a few units of 2**-24 per layer
+REL32 = 16 * 2.0 ** -24
+# presentations of a profile input besides the baseline (list of floats), in the order binding A rotates through
+ELEMENT_TYPES = ['int64', 'float32', 'list_of_int', 'int32', 'float64']
 LAYER_KEYS = ['pressure_profile', 'temp_profile', 'density_profile', 'altitude_profile', 'gravity_profile',
               'scaleheight_profile', 'mu_profile', 'active_mix_profile', 'inactive_mix_profile']
 CHEM_CLAUSES = ['chem_wellformed', 'mixing_ratios_aligned_with_layers', 'mu_is_weighted_mean_of_layer']
@@ -147,7 +158,42 @@ def option_label(klass, opt, unit=None):
                           '+reverse' if opt['reverse'] else '', (':' + unit) if klass == 'file' else '')
 
 # --------------------------------------------------------------------------- binding A
+def present(etype, values):
+    """the numbers `values` in the presentation `etype` of MC_Atmosphere!ElementTypes"""
+    vals = [float(x) for x in values]
+    if etype in ('int64', 'int32', 'list_of_int'):
+        if not all(x.is_integer() and abs(x) < 2 ** 31 for x in vals):
+            raise Machinery('integer presentation of non-integer values %r' % (vals,))
+        ints = [int(x) for x in vals]
+        return ints if etype == 'list_of_int' else np.array(ints, dtype=etype)
+    if etype == 'list_of_float':
+        return vals
+    if etype in ('float64', 'float32'):
+        return np.array(vals, dtype=etype)
+    raise Machinery('unknown element type %r exported by the spec' % (etype,))
+
+
+def present_if_exact(etype, arr):
+    """`arr` (float64) as an ndarray of the element type of `etype` when that type holds the same numbers, else as it is"""
+    dt = {'list_of_int': 'int64', 'list_of_float': 'float64'}.get(etype, etype)
+    with np.errstate(all='ignore'):
+        if np.all(np.abs(arr) < 2 ** 31) and np.array_equal(arr.astype(dt).astype(float), arr):
+            return arr.astype(dt)
+    return arr
+
+
+def element_type(v, j):
+    kinds = [e for e in ELEMENT_TYPES if e in v.get('etypes', [])]
+    unknown = set(v.get('etypes', [])) - set(ELEMENT_TYPES) - {'list_of_float'}
+    if not kinds or unknown:
+        raise Machinery('vector with element types %r' % (v.get('etypes'),))
+    return kinds[j % len(kinds)]
+
+
 UNIT_SETS = [dict(T0=500.0, R0=1.0e7, m0=2.0), dict(T0=150.0, R0=2.5e6, m0=11.0)]
+# unit maps of the element-type presentations: whole T0, and surface gravities of a few m/s2 (1.9 .. 4.6), so that a
+# gravity / scale height cut to a whole number stays finite and positive (a silent error, not an exception)
+ELEMENT_UNIT_SETS = [dict(T0=2000.0, R0=1.0e7, m0=2.0), dict(T0=1200.0, R0=2.5e6, m0=4.0)]
 
 
 def told_kind(v, j):
@@ -158,7 +204,7 @@ def told_kind(v, j):
     return kinds[j % len(kinds)]
 
 
-def build_from_vector(v, units, pkind, X, tkind='array'):
+def build_from_vector(v, units, pkind, X, tkind='array', etype=None):
     C = X['C']
     n = v['n']
     T0, R0, m0 = units['T0'], units['R0'], units['m0']
@@ -175,7 +221,13 @@ def build_from_vector(v, units, pkind, X, tkind='array'):
     # takes pressure nodes, the layer pressures the vector's grid declares)
     # (table_<cover>/<route>: the spec's table for that cover -- nodes at doubled exponents, temperatures in units of T0)
     nodes = [(10.0 ** (nd['l'] / 2.0), nd['T'] * T0) for nd in v['tables'][tkind.split('/')[0]]] if tkind.startswith('table_') else None
-    tp = told_temperature(tkind, [t * T0 for t in v['T']], [10.0 ** e for e in v['lay']], [10.0 ** e for e in v['lev']], tmpdir(), nodes)
+    if etype is not None:
+        # one entry per layer, no pressure points: the component exposes the very array it was given
+        if tkind != 'array':
+            raise Machinery('element types are presented through the array component')
+        tp = X['TemperatureArray'](tp_array=present(etype, [t * T0 for t in v['T']]))
+    else:
+        tp = told_temperature(tkind, [t * T0 for t in v['T']], [10.0 ** e for e in v['lay']], [10.0 ** e for e in v['lev']], tmpdir(), nodes)
     if pkind == 'simple':
         # the real ChemistryFile on the spec's table (rows = layers, columns = gases); which column is
         # the active gas rotates with the vector
@@ -205,17 +257,18 @@ def at(a, k):
         return None
 
 
-def judge_vector(ctx, v, units, pkind, X, tkind='array'):
+def judge_vector(ctx, v, units, pkind, X, tkind='array', etype=None):
     C = X['C']
     n = v['n']
-    model, gm_si = build_from_vector(v, units, pkind, X, tkind)
+    model, gm_si = build_from_vector(v, units, pkind, X, tkind, etype)
     R0, T0 = units['R0'], units['T0']
-    vec = dict(v, units=units, pkind=pkind, tkind=tkind)
+    vec = dict(v, units=units, pkind=pkind, tkind=tkind, etype=etype)
+    tol = [REL32 if etype == 'float32' else REL]
     cls0 = '%s:n=%d%s' % (pkind if pkind == 'simple' else option_label(pkind['klass'], v['inputs'][pkind['opt']], pkind.get('unit')), n,
-                          '' if tkind == 'array' else ':T=' + tkind)
+                          ('' if tkind == 'array' else ':T=' + tkind) + ('' if etype is None else ':T-elements=' + etype))
 
     def cmp(clause, name, got, want, k):
-        ok = got is not None and close(got, want, rel=REL, abs_=0.0 if want != 0 else 1e-300)
+        ok = got is not None and close(got, want, rel=tol[0], abs_=0.0 if want != 0 else 1e-300)
         ctx.verdict(clause, ok, cls='%s:%s%s' % (cls0, name, ':entry-absent' if got is None else ''),
                     detail='%s[%d] got %r expected %r' % (name, k, got, want), vector=vec)
 
@@ -266,13 +319,20 @@ def judge_vector(ctx, v, units, pkind, X, tkind='array'):
         Pl = np.array([10.0 ** e for e in v['lev']])
         mu = np.array([float(frac(m)) * m0 * C.AMU for m in v['mu']])
         j0 = sum(v['T']) + v['n'] + v['lev'][0]
-        for unit in ('m', UNITS[1 + j0 % (len(UNITS) - 1)], UNITS[1 + (j0 + 3) % (len(UNITS) - 1)]):
+        # ... and in several element types: the first call float64 throughout (or the model's presentation), the others
+        # with every input array in a rotating element type wherever that type holds the same numbers
+        ets = (etype or 'float64', element_type(v, j0), element_type(v, j0 + 2))
+        for unit, et in zip(('m', UNITS[1 + j0 % (len(UNITS) - 1)], UNITS[1 + (j0 + 3) % (len(UNITS) - 1)]), ets):
             u = unit_factor(unit)
+            aT, aP, amu = present_if_exact(et, T), present_if_exact(et, Pl), present_if_exact(et, mu)
+            if et not in ('float64', 'list_of_float') and aT.dtype == np.float64:
+                raise Machinery('temperatures %r not presentable as %s' % (T.tolist(), et))
+            tol[0] = REL32 if 'float32' in (et, etype) else REL
             try:
-                rz, rH, rg, rdz = model.planet.calculate_scale_properties(T, Pl, mu, length_units=unit)
+                rz, rH, rg, rdz = model.planet.calculate_scale_properties(aT, aP, amu, length_units=unit)
             except Exception:
                 rz = rH = rg = rdz = None
-            rname = 'route:%s' % unit
+            rname = 'route:%s%s' % (unit, '' if et == 'float64' else ':elements=' + str(aT.dtype))
             for k in range(n + 1):
                 cmp('altitude_recurrence', rname + ':z', at(rz, k), float(frac(v['z'][k])) * R0 * u, k)
             for k in range(n):
@@ -283,6 +343,7 @@ def judge_vector(ctx, v, units, pkind, X, tkind='array'):
                 ctx.verdict('one_entry_per_layer', layer_len(arr) == want, cls='%s:%s:%s' % (cls0, rname, name),
                             detail='%s returned by calculate_scale_properties(length_units=%r) has %d entries, expected %d'
                                    % (name, unit, layer_len(arr), want), vector=vec)
+    tol[0] = REL32 if etype == 'float32' else REL
     lens = observed_lengths(model)
     for src, rec in lens.items():
         for name, want in v['prof'].items():
@@ -297,19 +358,20 @@ def judge_vector(ctx, v, units, pkind, X, tkind='array'):
         cmp('levels_log_spaced', 'pressure_levels:after-all-reads', at(model.pressure.pressure_profile_levels, k), 10.0 ** v['lev'][k], k)
 
 
-def judge_vector_safely(ctx, v, units, pkind, X, tkind):
+def judge_vector_safely(ctx, v, units, pkind, X, tkind, etype=None):
     """an exception of the implementation while a vector is built / read is a verdict for that vector"""
     try:
-        judge_vector(ctx, v, units, pkind, X, tkind)
+        judge_vector(ctx, v, units, pkind, X, tkind, etype)
     except Machinery:
         raise
     except Exception as e:
         import traceback
         where = traceback.extract_tb(e.__traceback__)[-1]
         ctx.verdict('implementation_raised', False,
-                    cls='%s@%s:%s:vector:%s:T=%s' % (type(e).__name__, os.path.basename(where.filename), where.name,
-                                                    pkind if pkind == 'simple' else pkind['klass'], tkind),
-                    detail='%s: %s (n=%d)' % (type(e).__name__, e, v['n']), vector=dict(v, units=units, pkind=pkind, tkind=tkind))
+                    cls='%s@%s:%s:vector:%s:T=%s%s' % (type(e).__name__, os.path.basename(where.filename), where.name,
+                                                      pkind if pkind == 'simple' else pkind['klass'], tkind,
+                                                      '' if etype is None else ':T-elements=' + etype),
+                    detail='%s: %s (n=%d)' % (type(e).__name__, e, v['n']), vector=dict(v, units=units, pkind=pkind, tkind=tkind, etype=etype))
 
 
 def run_vectors(ctx, vecs, X):
@@ -321,6 +383,8 @@ def run_vectors(ctx, vecs, X):
     for j, v in enumerate(vecs):
         units = UNIT_SETS[j % len(UNIT_SETS)]
         judge_vector_safely(ctx, v, units, 'simple', X, told_kind(v, j))
+        # the same vector with its temperatures handed over in another element type / container
+        judge_vector_safely(ctx, v, ELEMENT_UNIT_SETS[(j // len(ELEMENT_TYPES)) % len(ELEMENT_UNIT_SETS)], 'simple', X, 'array', element_type(v, j))
         if v['n'] >= 2:
             # the spec's input options (orientation x reverse flag) in turn, through both classes
             nopt = len(v['inputs'])
@@ -1232,7 +1296,9 @@ def run(ctx):
                                 ('sharedwrite-refuted', 'MC_Atmosphere_sharedwrite.cfg', 'LayerIsGeometricMean'),
                                 ('sharedread-refuted', 'MC_Atmosphere_sharedread.cfg', 'ReadsAreRepeatable'),
                                 # a tabulated T(P) whose out-of-range layers take the FAR end of the table
-                                ('tableends-refuted', 'MC_Atmosphere_tableends.cfg', 'TabulatedTemperatureAligned')):
+                                ('tableends-refuted', 'MC_Atmosphere_tableends.cfg', 'TabulatedTemperatureAligned'),
+                                # work arrays for g and H that inherit an integer element type from the temperature input
+                                ('elemtype-refuted', 'MC_Atmosphere_elemtype.cfg', 'StructureIndependentOfElementType')):
             jobs.append(ex.submit(ctx.expect_refuted, label, 'MC_Atmosphere', cfg, inv, workers=1))
         X = setup()
         if not units_consistent():
@@ -1280,8 +1346,8 @@ def _replay(ctx, violations, X):
             replay_history(ctx, v, X)
             continue
         if not vec.get('trace'):
-            judge_vector_safely(ctx, {k: vec[k] for k in vec if k not in ('units', 'pkind', 'tkind')}, vec['units'], vec['pkind'], X,
-                                vec.get('tkind', 'array'))
+            judge_vector_safely(ctx, {k: vec[k] for k in vec if k not in ('units', 'pkind', 'tkind', 'etype')}, vec['units'], vec['pkind'], X,
+                                vec.get('tkind', 'array'), vec.get('etype'))
             continue
         key = (vec['sub'], vec['n'], vec['pkind'])
         if vec.get('build'):
